@@ -134,10 +134,26 @@ func ptrStr(p *bool) string {
 	return "&false"
 }
 
+// Three bitstreams of different character (continue-heavy, mixed, high bits), so that the
+// families reach their element generators and the different arms of their dice. Goroutine gi
+// of a scenario with stream variant v uses a private copy of stream v; only the families that touch
+// package-level state are run with every variant.
 var c15Words = [][]uint64{
-	{1, 0, 3, 1 << 63, 5, 0, 1, 2, 0x7fffffffffffffff, 1, 0, 0, 9, 1, 1, 0, 4, 0, 0, 0, 0, 0, 0, 0},
-	{^uint64(0), 1, 0, 2, 0, 1 << 40, 1, 1, 0, 0, 7, 0, 1, 1, 0, 3, 0, 0, 0, 0, 0, 0, 0, 0},
+	{^uint64(0), 1, ^uint64(0), 3, 1 << 63, 5, 0, 1, 2, 0x7fffffffffffffff, 1, 0, 0, 9, 1, 1, 0, 4, 0, 0, 0, 0, 0, 0},
+	{^uint64(0), ^uint64(0), 1, 0, 2, 0, 1 << 40, 1, 1, 0, 0, 7, 0, 1, 1, 0, 3, 0, 0, 0, 0, 0, 0, 0},
+	{^uint64(0), 25, 7, 3, ^uint64(0), 37, 1 << 52, 5, ^uint64(0), 30, 1, 2, 1<<53 - 1, 22, 9, 0, 0, 21, 0, 0, 0, 0, 0, 0}, // low 6 bits in 20..39: the rune die picks a range table
 }
+
+func c15variant(family int) int {
+	if family >= 12 && family <= 14 {
+		return choose("stream", 3)
+	}
+	return 0
+}
+
+// c15Stride 0: all goroutines of a scenario read equal (but separate) bitstreams, so that they
+// walk the same arms of a shared generator and meet the same lazily initialised slots.
+const c15Stride = 0
 
 // c15run performs ops on inst with a fresh T over the given words and returns what was observed.
 func c15run(inst c15inst, ops []uint8, words []uint64) []string {
@@ -164,12 +180,10 @@ func c15run(inst c15inst, ops []uint8, words []uint64) []string {
 	return out
 }
 
-func c15scenario(family int, progs [][]uint8) {
-	// alone: every goroutine's operations on a private instance
-	var alone [][]string
-	for gi := range progs {
-		alone = append(alone, c15run(c15build(family), progs[gi], c15Words[gi%len(c15Words)]))
-	}
+func c15scenario(family int, progs [][]uint8, variant int) {
+	// The concurrent phase comes FIRST, so that lazily initialised state that is not part of the
+	// instance (package-level generators, process-wide caches) is still untouched when the
+	// goroutines meet it; the reference runs on private instances follow.
 	shared := c15build(family)
 	got := make([][]string, len(progs))
 	var wg sync.WaitGroup
@@ -179,7 +193,7 @@ func c15scenario(family int, progs [][]uint8) {
 		go func(gi int) {
 			defer wg.Done()
 			barrierWait()
-			r := c15run(shared, progs[gi], c15Words[gi%len(c15Words)])
+			r := c15run(shared, progs[gi], c15Words[(variant+gi*c15Stride)%len(c15Words)])
 			hLock()
 			got[gi] = r
 			hUnlock()
@@ -187,6 +201,11 @@ func c15scenario(family int, progs [][]uint8) {
 	}
 	barrierOpen()
 	wg.Wait()
+	// alone: every goroutine's operations on a private instance
+	var alone [][]string
+	for gi := range progs {
+		alone = append(alone, c15run(c15build(family), progs[gi], c15Words[(variant+gi*c15Stride)%len(c15Words)]))
+	}
 	hLock()
 	defer hUnlock()
 	for gi := range progs {
@@ -216,8 +235,9 @@ func H_C15_shared() {
 	family := choose("family", c15Families)
 	progs := concProgs("g", 2, 2, c15Alphabet)
 	assume(progs[0][0] <= progs[1][0])
+	variant := c15variant(family)
 	for r := concRounds(); r > 0; r-- {
-		c15scenario(family, progs)
+		c15scenario(family, progs, variant)
 	}
 }
 
@@ -228,7 +248,8 @@ func H_C15_three() {
 	progs := concProgs("g", 3, 1, c15Alphabet)
 	assume(progs[0][0] <= progs[1][0])
 	assume(progs[1][0] <= progs[2][0])
+	variant := c15variant(family)
 	for r := concRounds(); r > 0; r-- {
-		c15scenario(family, progs)
+		c15scenario(family, progs, variant)
 	}
 }
